@@ -1242,6 +1242,9 @@ impl Opcode for SelfDestruct {
         // we would lose info
         vm.state()?.record_value(destroy);
 
+        // Self-destructing halts execution, so nothing after it on this thread runs
+        vm.kill_current_thread();
+
         // Done, so return ok
         Ok(())
     }
